@@ -103,10 +103,16 @@ def free_profile(draw, nzmin=3, nzmax=12):
     nz = len(z)
     ks = draw(logfl(0.1, 3.0))
 
+    # each of the five profiles is, now and then, constant with height while the others vary (a code path chosen from
+    # "these profiles are height-independent" must look at all of them)
+    mixed = draw(st.integers(0, 3)) == 0
+
     def arr(lo, hi):
+        if mixed and draw(st.integers(0, 1)) == 0:
+            return [draw(fl(lo, hi))] * nz
         return draw(st.lists(fl(lo, hi), min_size=nz, max_size=nz))
 
-    return {
+    p = {
         "kind": "free",
         "z": z,
         "u": arr(-6.0, 6.0),
@@ -115,6 +121,11 @@ def free_profile(draw, nzmin=3, nzmax=12):
         "Ky": [ks * a for a in arr(0.1, 4.0)],
         "Kz": [ks * a for a in arr(0.1, 4.0)],
     }
+    # horizontally isotropic diffusivity handed over as ONE array for both Kx and Ky: (u, v, Kh, Kh, Kz)
+    if draw(st.integers(0, 7)) == 0:
+        p["Ky"] = list(p["Kx"])
+        p["alias_kh"] = True
+    return p
 
 
 @st.composite
@@ -159,7 +170,10 @@ def build_profiles(p):
     if z.dtype.kind != "i":  # integer-typed grids stay integer-typed: the solver must cope with whole-metre heights
         z = z.astype(float)
     if p["kind"] == "free":
-        return z, tuple(np.asarray(p[k], float) for k in ("u", "v", "Kx", "Ky", "Kz"))
+        prof = [np.asarray(p[k], float) for k in ("u", "v", "Kx", "Ky", "Kz")]
+        if p.get("alias_kh"):
+            prof[3] = prof[2]  # the same object
+        return z, tuple(prof)
     if p["kind"] == "const":
         return z, tuple(np.full(len(z), float(p[k])) for k in ("u", "v", "Kx", "Ky", "Kz"))
     raise ValueError(p["kind"])
